@@ -54,6 +54,8 @@ SIGNED_PERMS = signed_perms()
 class Pose:
     def __init__(self, s=1, k=Fr(1), M=I3, t=(0, 0, 0), norm=1):
         self.s, self.k, self.M, self.t, self.norm = s, Fr(k), M, tuple(Fr(x) for x in t), norm
+        self.det = (M[0][0] * (M[1][1] * M[2][2] - M[1][2] * M[2][1]) - M[0][1] * (M[1][0] * M[2][2] - M[1][2] * M[2][0])
+                    + M[0][2] * (M[1][0] * M[2][1] - M[1][1] * M[2][0]))
 
     def lin(self, v):
         M = self.M
